@@ -248,6 +248,54 @@ def shard(shard_i, nshards, payload):
                 res.distinct.add(core.key_of("doc", i))
                 if len(res.samples) < 1:
                     res.sample({"text": text[:200], "check": ref[1].get("check")})
+        # ---- (1c) the language server reads the files of its workspace folder from disk: a library file in each
+        # encoding next to a document (sent by the editor) that uses its declarations
+        import lsp
+        for i in range(shard_i, payload["n_workspace"], nshards):
+            rng = core.rng_for(payload["seed"], "c14ws", i)
+            nonascii = rng.choice(["\u00e9", "\u00fc\u00df", "\u20ac"])
+            lib = ("(* Bibliothek %s *)\nTYPE\n  WsLevel%d : (ws_low%d, ws_high%d);\nEND_TYPE\n\nFUNCTION_BLOCK WsFb%d\nVAR_INPUT a : INT; END_VAR\n"
+                   "VAR s : STRING := 'gr%s'; END_VAR\na := 1;\nEND_FUNCTION_BLOCK\n" % (nonascii, i, i, i, i, nonascii))
+            if i % 3 == 2:
+                lib = lib.replace("\n", "\r\n")
+            main_text = "PROGRAM WsMain%d\nVAR l : WsLevel%d := ws_low%d; f : WsFb%d; x : INT; END_VAR\nf(a := 2);\nx := undeclared_ws;\nEND_PROGRAM\n" % (i, i, i, i)
+            ref = None
+            for name, enc in ENCODINGS:
+                try:
+                    data = enc(lib)
+                except UnicodeEncodeError:
+                    continue
+                wdir = os.path.join(tmp, "ws%d_%s" % (i, name))
+                os.makedirs(wdir, exist_ok=True)
+                open(os.path.join(wdir, "library.st"), "wb").write(data)
+                s_ = lsp.Session(tmp, workspace=wdir)
+                uri = "file://" + os.path.join(wdir, "main.st")
+                s_.open(uri, main_text, 1)
+                rid = s_.tokens("file://" + os.path.join(wdir, "library.st"))
+                resp, before = s_.wait_response(rid, 20.0)
+                s_.shutdown(5.0)
+                s_.kill()
+                res.evaluations += 1
+                res.count("lsp-workspace:" + name)
+                case = {"text": lib, "encoding": name, "cmd": "lsp-workspace", "kind": "workspace", "main": main_text}
+                if resp in (None, "timeout"):
+                    if resp == "timeout" and s_.p.poll() is None:
+                        res.inconclusive.append({"why": "lsp watchdog", "case": case})
+                    else:
+                        res.violation("crash", "crash:lsp-workspace", s_.stderr[-300:].decode("utf-8", "replace"), case)
+                    continue
+                pubs = [m for m in before if m.get("method") == "textDocument/publishDiagnostics" and m["params"]["uri"] == uri]
+                diags = sorted((d_.get("code"), d_["range"]["start"]["line"], d_["range"]["start"]["character"])
+                               for p_ in pubs[-1:] for d_ in p_["params"]["diagnostics"])
+                toks = resp.get("result")
+                obs = (diags, None if toks is None else len(toks.get("data", [])))
+                if ref is None:
+                    ref = (name, obs)
+                elif obs != ref[1]:
+                    res.violation("encoding-dependent", "lsp-workspace:%s" % name, {ref[0]: ref[1], name: obs}, case)
+                shutil.rmtree(wdir, ignore_errors=True)
+            if ref is not None:
+                res.distinct.add(core.key_of("ws", i))
         # ---- (2) exhaustive byte sweep: 256 byte values x 4 sites
         sites = {
             "comment": b"PROGRAM p\nVAR x : INT; END_VAR\n(* a @ b *) x := undeclared;\nEND_PROGRAM\n",
@@ -382,7 +430,7 @@ def run(tier, seed):
     core.build_plc()
     avoid = sorted({a for f in core.load_findings("C02") if f.get("status") == "open" for a in f.get("atoms", [])})
     payload = {"seed": seed, "avoid": avoid, "n_docs": 96 if tier == "quick" else 3000,
-               "n_binary": 160 if tier == "quick" else 50000}
+               "n_binary": 160 if tier == "quick" else 50000, "n_workspace": 16 if tier == "quick" else 400}
     parts = core.run_sharded(shard, payload)
     memcheck = "not run (quick tier)"
     if tier == "thorough":
